@@ -256,6 +256,9 @@ class EthAddr (_AddrBase):
       raise TypeError("This object is immutable")
     object.__setattr__(self, a, v)
 
+  def __delattr__ (self, a):
+    raise TypeError("This object is immutable")
+
 
 EthAddr.BROADCAST = EthAddr(b"\xff\xff\xff\xff\xff\xff")
 
@@ -437,6 +440,9 @@ class IPAddr (_AddrBase):
     if hasattr(self, '_value'):
       raise TypeError("This object is immutable")
     object.__setattr__(self, a, v)
+
+  def __delattr__ (self, a):
+    raise TypeError("This object is immutable")
 
 
 IP_ANY       = IPAddr("0.0.0.0")
@@ -781,6 +787,9 @@ class IPAddr6 (_AddrBase):
     if hasattr(self, '_value'):
       raise TypeError("This object is immutable")
     object.__setattr__(self, a, v)
+
+  def __delattr__ (self, a):
+    raise TypeError("This object is immutable")
 
   def set_mac (self, eth):
     e = list(EthAddr(eth).toTuple())
